@@ -51,20 +51,32 @@ def regenerate_tables():
     """Gen/Tables.v is printed from the live code objects of the tree under
     test on every run (DESIGN 3.2); rewritten only when its text changes."""
     from . import tables
-    text = tables.render()
-    path = os.path.join(COQ, "Gen", "Tables.v")
-    old = open(path).read() if os.path.exists(path) else None
-    if old != text:
-        os.makedirs(os.path.dirname(path), exist_ok=True)
-        with open(path, "w") as f:
-            f.write(text)
-    return hashlib.sha256(text.encode()).hexdigest()[:16]
+    h = hashlib.sha256()
+    for name, text in sorted(tables.render_all().items()):
+        path = os.path.join(COQ, "Gen", name + ".v")
+        old = open(path).read() if os.path.exists(path) else None
+        if old != text:
+            os.makedirs(os.path.dirname(path), exist_ok=True)
+            with open(path, "w") as f:
+                f.write(text)
+        h.update(text.encode())
+    return h.hexdigest()[:16]
 
 
 def ensure_makefile():
-    mk = os.path.join(COQ, "Makefile")
+    """_CoqProject lists every .v file present under coq/<Dir>/; Makefile is regenerated when the list changes."""
+    files = []
+    for d in ("Lib", "Gen", "Model", "Spec", "Corr", "Proof", "Props"):
+        dd = os.path.join(COQ, d)
+        if os.path.isdir(dd):
+            files += sorted("%s/%s" % (d, f) for f in os.listdir(dd) if f.endswith(".v") and not f.startswith("."))
+    text = ("-Q . TT\n-arg -w -arg -notation-overridden,-deprecated-hint-without-locality,"
+            "-deprecated-instance-without-locality,-deprecated-hint-rewrite-without-locality\n" + "\n".join(files) + "\n")
     cp = os.path.join(COQ, "_CoqProject")
-    if not os.path.exists(mk) or os.path.getmtime(mk) < os.path.getmtime(cp):
+    mk = os.path.join(COQ, "Makefile")
+    if not os.path.exists(cp) or open(cp).read() != text or not os.path.exists(mk):
+        with open(cp, "w") as f:
+            f.write(text)
         subprocess.run(["coq_makefile", "-f", "_CoqProject", "-o", "Makefile"], cwd=COQ, check=True,
                        capture_output=True)
 
@@ -99,6 +111,7 @@ def scan_forbidden(files):
 
 
 def all_v_files():
+    ensure_makefile()
     out = []
     for line in open(os.path.join(COQ, "_CoqProject")):
         line = line.strip()
@@ -547,7 +560,10 @@ def run_replay(pid, path):
 
 
 def setup():
+    lock = Lock()
+    lock.ex()
     regenerate_tables()
+    ensure_makefile()
     subprocess.run(["make", "clean"], cwd=COQ, capture_output=True) if os.path.exists(os.path.join(COQ, "Makefile")) else None
     rc, log, cmd = make([])
     print(log[-3000:])
